@@ -117,3 +117,23 @@ def c_reset_path(ctx, it, cfg):
     for nm in ('PSDXalpha', 'PSDXbeta'):
         a = m.fields[nm][0]
         ctx.prove('%s-matches-the-reset-grid' % nm, and_(isinstance(a, ArrBase) and a.ndim == 2, eq(a.shape[0], nb + 1), eq(a.shape[1], E)))
+
+
+# recorded size distributions are part of a run's output: what is recorded for a step is the cleaned, non-negative distribution of that step (shared with C08);
+from . import c08 as _c08, c14 as _c14
+REG.contracts.append(_c08.c_update_recorded.contract)
+REG.contracts.append(_c08.c_update.contract)
+
+
+@REG.contract('nucleationBarrier/no-nucleus-without-driving-force', ['kawin.precipitation.NucleationRate:nucleationBarrier'],
+              configs=[dict(name=s_, site=s_) for s_ in ('bulk', 'grain boundaries')])
+def c_barrier_zero(ctx, it, cfg):
+    """a driving force that is exactly zero or negative (matrix on or beyond the phase boundary) gives critical radius 0 and barrier 0 -- no division by it,
+    so no inf/NaN enters the histories (the caller only skips strictly negative values)"""
+    prm = _c14.PrecStub(ctx, it, cfg['site'])
+    nb = it.get('kawin.precipitation.NucleationRate', 'nucleationBarrier')
+    dG = real(ctx, 'dG', lambda v: v <= 0)
+    R, G = nb(dG, prm, 1)
+    ctx.prove('radius-and-barrier-are-zero', and_(eq(R, 0), eq(G, 0)))
+    R0, G0 = nb(0, prm, 1)
+    ctx.prove('exactly-zero-driving-force', and_(eq(R0, 0), eq(G0, 0)))
